@@ -1029,12 +1029,18 @@ impl ReCompiler {
         op1: &Operation,
         case_blind: bool,
         reluctant: bool,
+        multi_line: bool,
     ) -> bool {
         if matches!(op1, Operation::EndProgram(_)) {
             return !reluctant;
         }
-        if matches!(op1, Operation::Bol(_)) || matches!(op1, Operation::Eol(_)) {
-            return true;
+        if matches!(op1, Operation::Bol(_)) {
+            // what follows the anchor decides; giving back iterations may be needed
+            return false;
+        }
+        if matches!(op1, Operation::Eol(_)) {
+            // in multi-line mode '$' also matches before a newline the repeat may have consumed
+            return !multi_line;
         }
         if let Some(repeat_operation) = op1.repeat_operation() {
             if repeat_operation.min() == 0 {
